@@ -4,6 +4,7 @@
 
 #include <stack>
 #include <optional>
+#include <limits>
 
 #ifdef _MSC_VER
   #pragma warning( push )
@@ -251,17 +252,20 @@ bool ASTInterpreter::ViArithmetic(Cursor iter) {
   if (!val2.has_value()) {
     return false;
   }
-  const auto op1 = std::get<StructuredData>(val1.value()).E().Value();
-  const auto op2 = std::get<StructuredData>(val2.value()).E().Value();
+  const int64_t op1 = std::get<StructuredData>(val1.value()).E().Value();
+  const int64_t op2 = std::get<StructuredData>(val2.value()).E().Value();
+  int64_t result{};
   switch (iter->id) {
   default:
-  case TokenID::PLUS:
-    return SetCurrent(Factory::Val(op1 + op2));
-  case TokenID::MINUS:
-    return SetCurrent(Factory::Val(op1 - op2));
-  case TokenID::MULTIPLY:
-    return SetCurrent(Factory::Val(op1 * op2));
+  case TokenID::PLUS: result = op1 + op2; break;
+  case TokenID::MINUS: result = op1 - op2; break;
+  case TokenID::MULTIPLY: result = op1 * op2; break;
   }
+  if (result < std::numeric_limits<int32_t>::min() || result > std::numeric_limits<int32_t>::max()) {
+    OnError(ValueEID::typedOverflow, iter->pos.start, std::to_string(std::numeric_limits<int32_t>::max()));
+    return false;
+  }
+  return SetCurrent(Factory::Val(static_cast<int32_t>(result)));
 }
 
 bool ASTInterpreter::ViCard(Cursor iter) {
